@@ -266,7 +266,7 @@ def to_subgraphs(samples: list, graph: nx.Graph) -> list:
     graph_nodes = list(graph.nodes)
     node_number = len(graph_nodes)
 
-    subgraph_samples = [list(set(modes_from_counts(s))) for s in samples]
+    subgraph_samples = [sorted(set(modes_from_counts(s))) for s in samples]
 
     if graph_nodes != list(range(node_number)):
         return [sorted([graph_nodes[i] for i in s]) for s in subgraph_samples]
